@@ -1,4 +1,5 @@
 import RepeVerif.Lemmas.Svs
+import RepeVerif.Lemmas.SvsCommit
 import RepeVerif.Gen.Svs
 /-!
 # C09 — A pulled value stream reproduces the producer's bytes exactly and ends once
@@ -11,7 +12,8 @@ import RepeVerif.Gen.Svs
 > instead of an end marker.
 
 clause → theorem
-* facts read off `value_stream.rs` are the ones the theorems need ........ `source_facts` (+ `sinkOk`, `nextOk`, `wireOk`)
+* facts read off `value_stream.rs` are the ones the theorems need ........ `source_facts` (+ `sinkOk`, `nextOk`, `wireOk`),
+                                                                            `pull_source_form`, `pull_sequence_source`
 * chunking loses/duplicates/reorders nothing, any write fragmentation .... `sink_concat`, `sink_chunks_full`,
                                                                             `sink_fragmentation_independent`
 * `produce` ⇒ `Chunk* ++ [End | Fail e]` (bare close when it vanishes) .... `produce_shape`
@@ -23,9 +25,15 @@ clause → theorem
                                                                             `stuck_means_stopped`, `policy_runs_complete`
 * past the end / after release: an error ................................. `past_end_is_error`, `released_is_error`,
                                                                             `other_streams_untouched`
+* concurrent `next`s on one id: schedule-independent outcomes, each chunk
+  handed to at most one request, at most one `last` ...................... `concurrent_next`, `concurrent_at_most_one_last`
 * consumer's concatenation = producer's bytes (sync and async pullers) ... `end_to_end`, `async_eq_sync`
 * with compression, `decompress (compress x) = x` as a hypothesis ......... `end_to_end_compressed`
 * a failing producer makes both pullers return the error ................. `end_to_end_failure`
+* C10's wire scripts include every stream of this model; pull-to-file of a
+  modelled stream publishes the producer's bytes / nothing on failure ..... `stream_refines_commit_script`,
+                                                                            `commit_payload_of_stream`, `pulled_file_is_producers_bytes`,
+                                                                            `failed_stream_publishes_nothing`
 
 zstd (and its streaming decoder being the one-shot function) is a hypothesis, `sync_channel` is the
 FIFO transition system `Sys` (`send`/`recv`/rendezvous `handoff`/`closed`), the REPE transport
@@ -75,6 +83,20 @@ theorem sink_chunks_full (c : Nat) (hc : 1 ≤ c) (evs : List Ev) :
 
 example : Sink.run Gen.svsFacts 4 {} [.write [1, 2, 3], .flush, .write [4, 5, 6, 7, 8, 9, 10]]
     = some { buf := [9, 10], out := [[1, 2, 3, 4], [5, 6, 7, 8]] } := by decide
+
+/-- The boundary of the quantifier: with `chunk_bytes = 0` (which the public `StreamOpts` allows)
+the write loop never consumes a non-empty input — in the source it pushes empty chunks for ever; in
+the model the fuel runs out whatever it is.  The property quantifies over chunk sizes ≥ 1 byte, so
+this is reported as a robustness note (`fixes/svs-chunk-bytes-zero.diff`), not as a C09 violation. -/
+theorem chunk_zero_spins (fuel : Nat) (out : List Bytes) (d : UInt8) (ds : Bytes) :
+    writeLoop Gen.svsFacts 0 fuel { buf := [], out := out } (d :: ds) = none := by
+  induction fuel generalizing out with
+  | zero => rfl
+  | succ n ih =>
+    have hF : Gen.svsFacts.sinkFull = .ge := by decide
+    simp only [writeLoop, hF, Cmp.test, List.length_nil, Nat.sub_self, Nat.zero_min, List.take_zero,
+      List.append_nil, Nat.le_refl, decide_true, if_true, List.drop_zero, Sink.sendChunk]
+    exact ih _
 
 /-- The chunk sequence depends only on the bytes written, not on how they were split into writes. -/
 theorem sink_fragmentation_independent (c : Nat) (hc : 1 ≤ c) (evs evs' : List Ev)
@@ -172,6 +194,20 @@ theorem vanished_never_last (cs : List Bytes) (dn : Bool) :
 
 example : pullAll 3 ⟨[.chunk [7]], none, false⟩ = [.error vanished] := by rfl
 
+/-- `Session::pull` and `Session::recv` arm by arm, as `extract/svs.py` read them (an arm it does not
+recognise becomes `.other`, which this theorem does not accept). -/
+theorem pull_source_form : Gen.svsPull = specPull := by decide
+
+/-- `pull_sequence`, `fail_never_last` and `vanished_never_last` for the arms read off the source. -/
+theorem pull_sequence_source (cs : List Bytes) (e : String) (dn : Bool) :
+    pullAllA Gen.svsPull (cs.length + 2) ⟨cs.map .chunk ++ [.end], none, dn⟩ = (pullsOf cs).map .ok ∧
+    pullAllA Gen.svsPull (cs.length + 2) ⟨cs.map .chunk ++ [.fail e], none, dn⟩ = cs.dropLast.map nonlast ++ [.error e] ∧
+    pullAllA Gen.svsPull (cs.length + 1) ⟨cs.map .chunk, none, dn⟩ = cs.dropLast.map nonlast ++ [.error vanished] := by
+  rw [pull_source_form]
+  simp only [pullAllA_spec]
+  exact ⟨(pull_sequence cs dn).1, (fail_never_last cs e dn).1, vanished_never_last cs dn⟩
+
+
 /-! ## the bounded channel -/
 
 /-- Every depth `d ≥ 0`, every schedule of producer sends, handler receives and rendezvous:
@@ -262,6 +298,50 @@ theorem other_streams_untouched (sv : Server) (id id' : Nat) (h : id' ≠ id) :
         split
         · exact Server.get_remove_other sv id id' h
         · exact Server.get_put_other sv id id' _ h
+
+/-! ## concurrent `next` requests on one stream -/
+
+/-- Any number `k` of `next` requests for the same stream id (from any connections), any interleaving
+of their three lock regions (table lookup, pull under the session lock, table removal) and of
+`cancel`s:
+* the outcomes of the session-lock regions, in lock order, are the **sequential** pull results of the
+  delivered message sequence followed by errors — the schedule cannot change them;
+* every request that got through the lock holds the outcome logged at its own index, different
+  requests have different indices (each chunk is handed to at most one request), a framed response
+  is the image of that outcome, and a request that found no table entry answers an error. -/
+theorem concurrent_next (msgs : List Msg) (k : Nat) (sched : List Act) :
+    let s := Conc.run Gen.svsFacts (Conc.init msgs k) sched
+    s.log = padRes s.log.length (feedRun .fresh msgs) ∧ s.CallInv Gen.svsFacts := by
+  have hlog := Conc.run_logInv Gen.svsFacts { rx := msgs } sched (Conc.init msgs k) ⟨rfl, rfl⟩
+  obtain ⟨hi1, hi2⟩ := Conc.init_callInv Gen.svsFacts msgs k
+  refine ⟨?_, Conc.run_callInv Gen.svsFacts sched _ hi1 hi2⟩
+  have := hlog.1
+  rw [lockedAll_spec Gen.svsFacts nextOk] at this
+  exact this
+
+/-- For a clean stream of chunks `cs`: across all concurrent requests the chunks handed out, in lock
+order, are an initial segment of `pullsOf cs` — nothing twice, nothing skipped — and at most one
+response carries `last`. -/
+theorem concurrent_at_most_one_last (cs : List Bytes) (k : Nat) (sched : List Act) :
+    let s := Conc.run Gen.svsFacts (Conc.init (cs.map .chunk ++ [.end]) k) sched
+    (∃ m, s.log.filterMap okPair = (pullsOf cs).take m) ∧
+    ((s.log.filterMap okPair).filter (·.2)).length ≤ 1 := by
+  obtain ⟨h1, _⟩ := concurrent_next (cs.map .chunk ++ [.end]) k sched
+  simp only [] at h1 ⊢
+  rw [feedRun_fresh_clean [] cs] at h1
+  have hp := padRes_okPairs (Conc.run Gen.svsFacts (Conc.init (cs.map .chunk ++ [.end]) k) sched).log.length (pullsOf cs)
+  rw [← h1] at hp
+  refine ⟨⟨_, hp⟩, ?_⟩
+  rw [hp]
+  have hsub : (((pullsOf cs).take (Conc.run Gen.svsFacts (Conc.init (cs.map .chunk ++ [.end]) k) sched).log.length).filter (·.2)).Sublist
+      ((pullsOf cs).filter (·.2)) := (List.take_sublist _ _).filter _
+  have := hsub.length_le
+  rw [(exactly_one_last cs).2] at this
+  exact this
+
+example : (Conc.run Gen.svsFacts (Conc.init [.chunk [1], .chunk [2], .end] 3)
+    [.call 0, .call 1, .call 1, .call 0, .call 2, .call 2, .call 0, .call 1, .cancel, .call 2]).log
+    = [.ok ([1], false), .ok ([2], true), .error finishedMsg] := by rfl
 
 /-! ## end to end -/
 
@@ -379,5 +459,112 @@ theorem end_to_end_failure (c : Nat) (hc : 1 ≤ c) (evs : List Ev) (e : BodyEnd
 example : syncPull Gen.svsFacts (fun _ => 1)
     (responses Gen.svsFacts {} ((produce Gen.svsFacts 2 [.write [1, 2, 3, 4, 5]] (.err "boom")).getD []) 6)
     = none := by decide
+
+/-! ## composition with C10's commit model
+
+C10 quantifies over abstract *wire scripts* (`Commit.Wire`: the answers to successive `next` calls).
+Every response list of this model is such a script (`toWire`), C10's two readers read it exactly as
+this model's readers do, and so C10's theorems apply to streams as C09 describes them: a pull-to-file
+of a healthy stream publishes exactly the producer's bytes, a pull of a failed stream publishes nothing. -/
+
+/-- Refinement: C10's specification-level reading `payload`, its blocking reader and its async loop
+agree on `toWire rs` with this model's `syncPull` / `asyncPull`, for **every** response list `rs`. -/
+theorem stream_refines_commit_script (rs : List Resp) (sizes : Nat → Nat) (hs : ∀ k, 1 ≤ sizes k) :
+    Commit.payload (toWire Gen.svsFacts.syncLastIs rs) = syncPull Gen.svsFacts sizes rs ∧
+    ((Commit.syncPullN none (toWire Gen.svsFacts.syncLastIs rs)).ok = true →
+      some (Commit.syncPullN none (toWire Gen.svsFacts.syncLastIs rs)).bodies.flatten = syncPull Gen.svsFacts sizes rs) ∧
+    ((Commit.asyncPull (toWire Gen.svsFacts.asyncLastIs rs)).ok = true →
+      some (Commit.asyncPull (toWire Gen.svsFacts.asyncLastIs rs)).bodies.flatten = asyncPull Gen.svsFacts rs) := by
+  refine ⟨?_, ?_, ?_⟩
+  · rw [payload_toWire, syncPull_eq _ _ hs]
+  · obtain ⟨h1, h2, _⟩ := syncPullN_toWire Gen.svsFacts.syncLastIs rs
+    intro hok
+    rw [syncPull_eq _ _ hs, h1, ← h2, hok]; rfl
+  · obtain ⟨h1, h2⟩ := asyncPull_toWire Gen.svsFacts.asyncLastIs rs
+    intro hok
+    rw [asyncPull_eq, h1, ← h2, hok]; rfl
+
+/-- Healthy stream ⇒ the script C10 sees has `payload = producer's bytes`. -/
+theorem commit_payload_of_stream (c : Nat) (hc : 1 ≤ c) (evs : List Ev) (sv : Server) (n : Nat)
+    (hn : (evBytes evs).length / c + 1 ≤ n) :
+    ∃ msgs, produce Gen.svsFacts c evs .ok = some msgs ∧
+      Commit.payload (toWire 1 (responses Gen.svsFacts sv msgs n)) = some (evBytes evs) := by
+  obtain ⟨msgs, h1, _, h3, _⟩ := end_to_end c hc evs sv n hn (fun _ => 1) (fun _ => Nat.le_refl 1)
+  refine ⟨msgs, h1, ?_⟩
+  have := (stream_refines_commit_script (responses Gen.svsFacts sv msgs n) (fun _ => 1) (fun _ => Nat.le_refl 1)).1
+  have hk : Gen.svsFacts.syncLastIs = 1 := by decide
+  rw [hk] at this
+  rw [this, h3]
+
+/-- **C09 ∘ C10.**  Producer writes `evs` at chunk size `c ≥ 1`; the session, table and `next` handler
+of this model answer the puller; the puller is any of C10's file pullers without a trailer, run by
+C10's model with the canonical step order, on a script whose wire is that answer list and whose other
+fields do not fail (open ok, tags compatible, verify accepts, rename and fsync succeed, no write
+fault).  Then the call returns `Ok` and the destination holds exactly the producer's logical bytes
+(`lg`: the bytes themselves, or their decoding when the puller decodes a zstd stream). -/
+theorem pulled_file_is_producers_bytes (c : Nat) (hc : 1 ≤ c) (evs : List Ev) (sv : Server) (n : Nat)
+    (hn : (evBytes evs).length / c + 1 ≤ n)
+    (p : Commit.Puller) (s : Commit.Script) (codec : Commit.Codec) (fs₀ : Commit.FS) (lg : Bytes)
+    (hwire : ∀ msgs, produce Gen.svsFacts c evs .ok = some msgs →
+      s.wire = toWire 1 (responses Gen.svsFacts sv msgs n))
+    (hopen : s.openOk = true) (htags : Commit.tagsOk p s = true)
+    (hver : p.verifies = true → s.verifyOk = true) (hren : s.renameOk = true) (hsync : s.syncOk = true)
+    (hstop : s.stop = none) (hwf : s.writeFault = none) (htr : p.hasTrailer = false)
+    (hdec : (if p.decodes && s.comp == .zstd then codec.dec (evBytes evs) else some (evBytes evs)) = some lg) :
+    (Commit.run Commit.canonical p s codec).ret = .ok ∧
+    Commit.runOps fs₀ (Commit.run Commit.canonical p s codec).ops = { dest := some lg, tmp := none } := by
+  obtain ⟨msgs, h1, h2⟩ := commit_payload_of_stream c hc evs sv n hn
+  have hw := hwire msgs h1
+  have hexp : Commit.expected p s codec = some lg := by
+    unfold Commit.expected
+    have hv : (!p.verifies || s.verifyOk) = true := by
+      cases hp : p.verifies with
+      | false => rfl
+      | true => simp [hver hp]
+    have hpay : Commit.payloadN (if p.usesWriteFile = true then s.stop else none) s.wire = some (evBytes evs) := by
+      rw [hstop]
+      have : (if p.usesWriteFile = true then (none : Option Nat) else none) = none := by split <;> rfl
+      rw [this, hw]
+      exact h2
+    simp only [hopen, htags, hv, hren, hsync, Bool.and_self, if_true, hpay, hdec, htr, Bool.false_eq_true,
+      if_false, hwf, Commit.fit]
+  obtain ⟨a, b⟩ := Commit.run_of_expected_some p s codec lg hexp
+  rw [a]
+  exact ⟨rfl, by rw [Commit.run_successOps, b]⟩
+
+/-- non-vacuity: `pull_to_file` of a five-byte writer stream at chunk size 2 on a fresh server -/
+example :
+    Commit.runOps ⟨some [9], none⟩ (Commit.run Commit.canonical .file
+      { openOk := true, comp := .none, beve := false,
+        wire := toWire 1 (responses Gen.svsFacts {} ((produce Gen.svsFacts 2 [.write [1, 2, 3, 4, 5]] .ok).getD []) 4),
+        stop := none, verifyOk := true, trailer := 0, renameOk := true } ⟨fun _ => none, fun x => x⟩).ops
+      = { dest := some [1, 2, 3, 4, 5], tmp := none } := by decide
+
+/-- … and when the producer fails or vanishes, whatever else the script says: `Err`, destination
+untouched (no `rename` among the operations). -/
+theorem failed_stream_publishes_nothing (c : Nat) (hc : 1 ≤ c) (evs : List Ev) (e : BodyEnd) (he : e ≠ .ok)
+    (sv : Server) (n : Nat) (p : Commit.Puller) (s : Commit.Script) (codec : Commit.Codec) (fs₀ : Commit.FS)
+    (hwire : ∀ msgs, produce Gen.svsFacts c evs e = some msgs →
+      s.wire = toWire 1 (responses Gen.svsFacts sv msgs n))
+    (hstop : s.stop = none) :
+    (Commit.run Commit.canonical p s codec).ret = .err ∧
+    (Commit.runOps fs₀ (Commit.run Commit.canonical p s codec).ops).dest = fs₀.dest := by
+  obtain ⟨msgs, h1, _, h3, _⟩ := end_to_end_failure c hc evs e he sv n (fun _ => 1) (fun _ => Nat.le_refl 1)
+  have hw := hwire msgs h1
+  have hpay : Commit.payload s.wire = none := by
+    have := (stream_refines_commit_script (responses Gen.svsFacts sv msgs n) (fun _ => 1) (fun _ => Nat.le_refl 1)).1
+    have hk : Gen.svsFacts.syncLastIs = 1 := by decide
+    rw [hk] at this
+    rw [hw, this, h3]
+  have hexp : Commit.expected p s codec = none := by
+    unfold Commit.expected
+    have : Commit.payloadN (if p.usesWriteFile = true then s.stop else none) s.wire = none := by
+      rw [hstop]
+      have : (if p.usesWriteFile = true then (none : Option Nat) else none) = none := by split <;> rfl
+      rw [this]; exact hpay
+    rw [this]
+    split <;> rfl
+  obtain ⟨a, _, cc⟩ := Commit.run_of_expected_none p s codec hexp
+  exact ⟨a, Commit.dest_of_noRename _ _ cc⟩
 
 end Repe.C09
